@@ -3,8 +3,10 @@
 cd "$(dirname "$0")/.."
 [ "${EVID:-0}" = "1" ] || export VERIF_NO_EVIDENCE=1
 fail=0
+TIER="${TIER:-quick}"
+[ "$TIER" = "thorough" ] && export VERIF_NO_SELFTEST=1
 for n in $(seq -w 1 20); do
-  out=$(./check C$n quick 2>&1); rc=$?
+  out=$(./check C$n $TIER 2>&1); rc=$?
   line=$(echo "$out" | tail -1)
   echo "rc=$rc $line"
   [ $rc -ne 0 ] && fail=1
